@@ -3,7 +3,10 @@ package props
 import (
 	"encoding/json"
 	"fmt"
+	"io"
+	"regexp"
 	"sort"
+	"strconv"
 	"strings"
 	"testing"
 
@@ -25,7 +28,7 @@ type C01Case struct {
 	HasAnn bool   `json:"has_ann"`
 	Ann    string `json:"ann"`
 	// WellFormed: Ann was rendered from Slots (a JSON list of int32); then the parsed slots must be
-	// exactly Slots. Otherwise the parse result of the code under test is taken as "the slots".
+	// exactly Slots. Otherwise strictSlots decides what the value denotes (no slots when invalid).
 	WellFormed bool    `json:"well_formed"`
 	Slots      []int32 `json:"slots,omitempty"`
 	// Controller: 0 = helpers only, 1 = Parallel one-shot, 2 = OrderedReady to fixed point
@@ -38,7 +41,8 @@ func (c C01Case) Summary() interface{} {
 }
 
 var malformedAnns = []string{"", "[1,", "abc", "[1.5]", `["1"]`, `{"a":1}`, "[2147483648]", "[-2147483649]", "null", "[null]", "[1,null,3]",
-	"[ ]", "[[1]]", "1", "true", "[1e0]", "[01]", "[+1]", "[0x1]", "[1,]", " [0] ", "[0]x", "\x00", "[9999999999999999999999]", "[-0]"}
+	"[ ]", "[[1]]", "1", "true", "[1e0]", "[01]", "[+1]", "[0x1]", "[1,]", " [0] ", "[0]x", "\x00", "[9999999999999999999999]", "[-0]",
+	`[1,"2"]`, "[3,2147483648,1]", "[1,2.5]", "[2,[3]]", "[1,true]", `[0,{"a":1}]`, "[1,-2147483649]", "[2,1e1]", "[1] [2]", "[4,1.0]"}
 
 func genSlotValue(rt *rapid.T, r int32) int32 {
 	switch rapid.IntRange(0, 9).Draw(rt, "slotKind") {
@@ -77,6 +81,20 @@ func genC01(rt *rapid.T) C01Case {
 	case 2:
 		c.HasAnn = true
 		c.Ann = string(rapid.SliceOfN(rapid.Byte(), 0, 12).Draw(rt, "bytes"))
+	case 3:
+		// a list that is fine except for one element
+		c.HasAnn = true
+		n := rapid.IntRange(1, 5).Draw(rt, "nmixed")
+		bad := rapid.IntRange(0, n-1).Draw(rt, "badAt")
+		var parts []string
+		for i := 0; i < n; i++ {
+			if i == bad {
+				parts = append(parts, rapid.SampledFrom([]string{"2147483648", "-2147483649", `"2"`, "1.5", "[3]", "true", "1e0", "{}", `""`, "1.0", "99999999999999999999"}).Draw(rt, "badElem"))
+			} else {
+				parts = append(parts, fmt.Sprint(genSlotValue(rt, c.R)))
+			}
+		}
+		c.Ann = "[" + strings.Join(parts, ",") + "]"
 	default:
 		c.HasAnn = true
 		c.WellFormed = true
@@ -116,10 +134,68 @@ func c01Set(c C01Case) *asv1.StatefulSet {
 	return s
 }
 
+var intLiteral = regexp.MustCompile(`^-?(0|[1-9][0-9]*)$`)
+
+// strictSlots is the harness' own reading of an annotation value. status 0: a JSON list of int32
+// literals (or null) - these are the slots; 1: anything else - "an invalid annotation means no
+// slots" (the repository's own helper test pins that for the value "invalid"); 2: a list with null
+// elements, which encoding/json accepts without error leaving zeros - nothing is said about those,
+// the code's own parse is taken.
+func strictSlots(ann string) (map[int]bool, int) {
+	dec := json.NewDecoder(strings.NewReader(ann))
+	dec.UseNumber()
+	var v interface{}
+	if err := dec.Decode(&v); err != nil {
+		return map[int]bool{}, 1
+	}
+	var extra interface{}
+	if err := dec.Decode(&extra); err != io.EOF {
+		return map[int]bool{}, 1
+	}
+	if v == nil {
+		return map[int]bool{}, 0
+	}
+	list, ok := v.([]interface{})
+	if !ok {
+		return map[int]bool{}, 1
+	}
+	out, gray := map[int]bool{}, false
+	for _, e := range list {
+		if e == nil {
+			gray = true
+			continue
+		}
+		n, ok := e.(json.Number)
+		if !ok || !intLiteral.MatchString(string(n)) {
+			return map[int]bool{}, 1
+		}
+		x, err := strconv.ParseInt(string(n), 10, 32)
+		if err != nil {
+			return map[int]bool{}, 1
+		}
+		out[int(x)] = true
+	}
+	if gray {
+		return nil, 2
+	}
+	return out, 0
+}
+
 func runC01(rep Rep, c C01Case) {
 	set := c01Set(c)
 	parsed := helper.GetDeleteSlots(set)
 	slots := int32SetToMap(parsed)
+	if c.HasAnn {
+		if want, st := strictSlots(c.Ann); st != 2 {
+			if fmt.Sprint(sortedInts(want)) != fmt.Sprint(sortedInts(slots)) {
+				sig := "codec/parse"
+				if st == 1 {
+					sig = "codec/invalid-annotation-yields-slots"
+				}
+				rep.Violate(sig, "annotation %q: the helper reads slots %v, it denotes %v", c.Ann, sortedInts(slots), sortedInts(want))
+			}
+		}
+	}
 	if c.WellFormed {
 		want := map[int]bool{}
 		for _, v := range c.Slots {
